@@ -1223,10 +1223,11 @@ void TorqueMuscleFunctionFactory::createGaussianShapedActiveTorqueAngleCurve(
   double x2 =  angleAtOneNormTorque;
   double x3 =  angleAtOneNormTorque + angularStandardDeviation;
 
-  if( (angleAtOneNormTorque-thetaMin) <
-      (angleAtOneNormTorque-angularStandardDeviation)) {
-    x1 =  angleAtOneNormTorque - 0.5*thetaMin;
-    x3 =  angleAtOneNormTorque + 0.5*thetaMin;
+  //If the shoulders are closer than one standard deviation, keep the
+  //intermediate knots between the shoulders and the peak
+  if( thetaWidth < angularStandardDeviation ) {
+    x1 =  angleAtOneNormTorque - 0.5*thetaWidth;
+    x3 =  angleAtOneNormTorque + 0.5*thetaWidth;
   }
 
   double x4 =  thetaMax;
